@@ -60,6 +60,21 @@ fn fmtbs_line(t: &[&str]) -> String {
     }
 }
 
+// upper: "<code point>" -> "<code point> <to_ascii_uppercase> <char::to_uppercase code points...>" | "none" (not a scalar value)
+//   the case mapping the library's `unicode` feature uses (std of this very build), for C19
+fn upper_line(t: &[&str]) -> String {
+    match t[0].parse::<u32>().ok().and_then(char::from_u32) {
+        Some(c) => {
+            let mut s = format!("{} {}", c as u32, c.to_ascii_uppercase() as u32);
+            for u in c.to_uppercase() {
+                s.push_str(&format!(" {}", u as u32));
+            }
+            s
+        }
+        None => "none".to_string(),
+    }
+}
+
 pub fn main(args: &[String]) {
     let stdin = std::io::stdin();
     let stdout = std::io::stdout();
@@ -90,6 +105,7 @@ pub fn main(args: &[String]) {
         }
         let r = match mode {
             "fmtbs" => fmtbs_line(&t),
+            "upper" => upper_line(&t),
             _ => "bad mode".to_string(),
         };
         writeln!(out, "{}", r).unwrap();
